@@ -133,6 +133,15 @@ def run(ctx):
         else:
             s = nc.build_session(sid, inp, api=None if eng == "hash" else ("nearest_neighbor", "symdel")[sid % 2])
         sessions.append(s)
+    # expanded clones: a query with dozens of candidate references (bulk / batched code paths)
+    for r in range(2 if ctx.quick else 12):
+        sid += 1
+        k = 1 + r % 2
+        ref, root = nc.expanded_clone(ctx.rng, copies=ctx.rng.randint(66, 90))
+        q = [root, nc.mutate(ctx.rng, root, 1), nc.mutate(ctx.rng, root, 2), ref[0], "CASSF"]
+        sessions.append(nc.build_session(sid, nc.make_inp("symdel", "lev", k, ref, seqs2=q), api=("nearest_neighbor", "symdel")[sid % 2], with_internal=False))
+        sid += 1
+        sessions.append(nc.build_db_session(sid, nc.make_inp("symdel", "lev", k, ref, seqs2=q), [nc.make_inp("symdel", "lev", k, ref, seqs2=q[::-1])["seqs2"]], with_internal=False))
     npx.count_sessions(ctx, sessions)
     verdicts = nc.validate_sessions(ctx, sessions, letters=codes)
     npx.judge_sessions(ctx, sessions, verdicts, classify=classify)
